@@ -860,6 +860,9 @@ func (ctx Ctx) qualifiedName(obj types.Object) string {
 
 func (ctx Ctx) selectExpr(e *ast.SelectorExpr) coq.Expr {
 	selectorType, ok := ctx.getType(e.X)
+	if ok && isCondVar(selectorType) {
+		ctx.unsupported(e, "field %s of sync.Cond (a condition variable is modelled as an opaque reference)", e.Sel.Name)
+	}
 	if !ok {
 		if isIdent(e.X, "filesys") {
 			return coq.GallinaIdent("FS." + e.Sel.Name)
@@ -933,6 +936,10 @@ func (ctx Ctx) compositeLiteral(e *ast.CompositeLit) coq.Expr {
 
 func (ctx Ctx) structLiteral(info structTypeInfo,
 	e *ast.CompositeLit) coq.StructLiteral {
+	if strings.HasPrefix(info.name, "sync.") {
+		// there is no descriptor for these; new(sync.Mutex) is modelled
+		ctx.unsupported(e, "literal of type %s (use new)", info.name)
+	}
 	ctx.dep.addDep(info.name)
 	lit := coq.NewStructLiteral(info.name)
 	for _, el := range e.Elts {
